@@ -7,6 +7,6 @@ require (
 	golang.org/x/text v0.11.0
 )
 
-require github.com/apparentlymart/go-textseg/v15 v15.0.0 // indirect
+require github.com/apparentlymart/go-textseg/v15 v15.0.0
 
 replace github.com/zclconf/go-cty => /repo
